@@ -126,11 +126,15 @@ func (s *Server) SendJob(bl *block.Block, diff uint128.Uint128) {
 					return nil
 				}
 
-				rand.Read(bl.NonceExtra[:])
+				// every job gets its own copy of the template: the recipient and the extra nonce written
+				// here must not show through the jobs handed to the other connections
+				jobBl := *bl
 
-				bl.Recipient = c.Address
+				rand.Read(jobBl.NonceExtra[:])
 
-				blob := bl.Commitment().MiningBlob()
+				jobBl.Recipient = c.Address
+
+				blob := jobBl.Commitment().MiningBlob()
 				seed := blob.GetSeed()
 				jobid := strconv.FormatUint(util.RandomUint64(), 36)
 				target := util.GetTargetBytes(diff)
@@ -146,7 +150,7 @@ func (s *Server) SendJob(bl *block.Block, diff uint128.Uint128) {
 				}
 				c.Jobs = append(c.Jobs, &MinerJob{
 					JobID: jobid,
-					Block: bl,
+					Block: &jobBl,
 					Seed:  seed,
 				})
 
@@ -161,7 +165,7 @@ func (s *Server) SendJob(bl *block.Block, diff uint128.Uint128) {
 							JobID:    jobid,
 							Target:   target,
 							SeedHash: seed[:],
-							Height:   bl.Height,
+							Height:   jobBl.Height,
 						},
 					})
 					if err != nil {
